@@ -393,3 +393,106 @@ Theorem C08_bcdd_level_swap_example :
   /\ wf_b (set_var_order_model_c ex_swap_c [2; 1; 0]) = true.
 Proof. exact ex_swap_c_all. Qed.
 Print Assumptions C08_bcdd_level_swap_example.
+
+(** ** ALL histories (HIST): reordering inside the manager state machine of Mgr/History.v,
+    and "subsequent operations behave as on a freshly built diagram" *)
+From OxiVerif Require Import DD.Sem DD.Build DD.Apply DD.ApplyProofs DD.ApplyEvalProofs DD.ConfigApply DD.Quant
+  DD.QuantSpecProofs Mgr.History Mgr.HistoryProofs Mgr.HistoryThms Mgr.HistorySpec Mgr.HistoryExamples.
+
+(* [set_var_order] in any state the invariant holds in (so: after any history): invariant again,
+   same slots, same functions of the variables, the requested relative order *)
+Theorem C08_hist_reorder_keeps :
+  forall (gt : ref -> ref -> bool) (C : Type) (cget : C -> N -> list ref -> option ref)
+         (cadd : C -> N -> list ref -> ref -> C), lossy cget cadd ->
+  forall cempty : C, (forall k a, cget cempty k a = None) ->
+  forall (st : hstate C) order st', HInv C cget st ->
+  hop_pre C st (HSetVarOrder order) -> hstep gt C cget cadd cempty st (HSetVarOrder order) = Some st' ->
+  HInv C cget st' /\
+  nlevels (h_s C st') = nlevels (h_s C st) /\
+  s_handles (h_s C st') = s_handles (h_s C st) /\
+  (forall x e, hget (s_handles (h_s C st)) x = Some e ->
+     ref_ok (h_s C st') (eref e) /\
+     forall a, bfun_of (h_s C st') (eref e) a = bfun_of (h_s C st) (eref e) a) /\
+  (forall a b, a < b < length order ->
+     nth (nth a order 0) (s_v2l (h_s C st')) 0 < nth (nth b order 0) (s_v2l (h_s C st')) 0).
+Proof. exact hist_reorder_keeps. Qed.
+Print Assumptions C08_hist_reorder_keeps.
+
+(* every call (operations, collections, further reorderings) after a reordering - after any
+   history - keeps every other slot: same edge, same function *)
+Theorem C08_hist_frame :
+  forall (gt : ref -> ref -> bool) (C : Type) (cget : C -> N -> list ref -> option ref)
+         (cadd : C -> N -> list ref -> ref -> C), lossy cget cadd ->
+  forall cempty : C, (forall k a, cget cempty k a = None) ->
+  forall (st : hstate C) o st', HInv C cget st -> hop_pre C st o ->
+  hstep gt C cget cadd cempty st o = Some st' ->
+  forall x e, hdst o <> Some x -> hget (s_handles (h_s C st)) x = Some e ->
+  hget (s_handles (h_s C st')) x = Some e /\
+  ref_ok (h_s C st') (eref e) /\
+  forall a, bfun_of (h_s C st') (eref e) a = bfun_of (h_s C st) (eref e) a.
+Proof. exact hist_frame_slots. Qed.
+Print Assumptions C08_hist_frame.
+
+(* ... and the replacement functions inside substitution objects *)
+Theorem C08_hist_frame_subst :
+  forall (gt : ref -> ref -> bool) (C : Type) (cget : C -> N -> list ref -> option ref)
+         (cadd : C -> N -> list ref -> ref -> C), lossy cget cadd ->
+  forall cempty : C, (forall k a, cget cempty k a = None) ->
+  forall (st : hstate C) o st', HInv C cget st -> hop_pre C st o ->
+  hstep gt C cget cadd cempty st o = Some st' ->
+  forall id pairs v r, In (id, pairs) (h_reg C st) -> In (v, r) pairs ->
+  ref_ok (h_s C st') r /\ forall a, bfun_of (h_s C st') r a = bfun_of (h_s C st) r a.
+Proof. exact hist_frame_subst. Qed.
+Print Assumptions C08_hist_frame_subst.
+
+(* "as on a freshly built diagram": [ops1] any history (reorderings, collections, ...), [ops2] any
+   other one, e.g. the shortest that builds the operands in a fresh manager with the same
+   variable order; the same call gives the same function and the same node count *)
+Theorem C08_hist_fresh_equiv :
+  forall (gt1 gt2 : ref -> ref -> bool) (C1 C2 : Type)
+         (cget1 : C1 -> N -> list ref -> option ref) (cadd1 : C1 -> N -> list ref -> ref -> C1)
+         (cget2 : C2 -> N -> list ref -> option ref) (cadd2 : C2 -> N -> list ref -> ref -> C2),
+  lossy cget1 cadd1 -> lossy cget2 cadd2 ->
+  forall (ce1 : C1) (ce2 : C2),
+  (forall k a, cget1 ce1 k a = None) -> (forall k a, cget2 ce2 k a = None) ->
+  forall n1 n2 ops1 ops2 (st1 : hstate C1) (st2 : hstate C2) o1 o2 d1 d2 F,
+  hops_pre gt1 C1 cget1 cadd1 ce1 (hinit C1 ce1 n1) ops1 ->
+  hrun gt1 C1 cget1 cadd1 ce1 (hinit C1 ce1 n1) ops1 = Some st1 ->
+  hops_pre gt2 C2 cget2 cadd2 ce2 (hinit C2 ce2 n2) ops2 ->
+  hrun gt2 C2 cget2 cadd2 ce2 (hinit C2 ce2 n2) ops2 = Some st2 ->
+  s_l2v (h_s C1 st1) = s_l2v (h_s C2 st2) -> s_v2l (h_s C1 st1) = s_v2l (h_s C2 st2) ->
+  hspec C1 st1 o1 d1 F -> hspec C2 st2 o2 d2 F ->
+  exists st1' st2' r1 r2,
+    hstep gt1 C1 cget1 cadd1 ce1 st1 o1 = Some st1' /\ hstep gt2 C2 cget2 cadd2 ce2 st2 o2 = Some st2' /\
+    hslot C1 st1' d1 = Some r1 /\ hslot C2 st2' d2 = Some r2 /\
+    (forall a, bfun_of (h_s C1 st1') r1 a = F a) /\
+    (forall a, bfun_of (h_s C2 st2') r2 a = F a) /\
+    count_reach (h_s C1 st1') (E r1) = count_reach (h_s C2 st2') (E r2) /\
+    wf_b (h_s C1 st1') = true /\ wf_b (h_s C2 st2') = true.
+Proof. exact hist_fresh_equiv. Qed.
+Print Assumptions C08_hist_fresh_equiv.
+
+(* non-vacuity: the long-lived manager of Mgr/HistoryExamples.v (24 calls incl. a reordering to
+   [2;0;1], two collections, an added variable; unbounded cache, operands swapped) against a fresh
+   one (reordered while empty, no cache) *)
+Theorem C08_hist_example_fresh :
+  exists stA' stB' r1 r2,
+    hstep gtA acache ac_get ac_add nil ex_stA (HBin OAnd 20 5 7) = Some stA' /\
+    hstep gtB unit nc_get nc_add tt ex_stB (HBin OAnd 6 4 5) = Some stB' /\
+    hslot acache stA' 20 = Some r1 /\ hslot unit stB' 6 = Some r2 /\
+    (forall a, bfun_of (h_s acache stA') r1 a = lift2 OAnd fA5 fA7 a) /\
+    (forall a, bfun_of (h_s unit stB') r2 a = lift2 OAnd fA5 fA7 a) /\
+    count_reach (h_s acache stA') (E r1) = count_reach (h_s unit stB') (E r2) /\
+    wf_b (h_s acache stA') = true /\ wf_b (h_s unit stB') = true.
+Proof. exact ex_fresh_equiv. Qed.
+Print Assumptions C08_hist_example_fresh.
+
+Theorem C08_hist_example_state :
+  PositiveMap.cardinal (s_nodes (h_s acache ex_stA)) = 15 /\
+  s_l2v (h_s acache ex_stA) = (2 :: 0 :: 1 :: 3 :: nil) /\
+  s_v2l (h_s acache ex_stA) = (1 :: 2 :: 0 :: 3 :: nil) /\
+  length (s_handles (h_s acache ex_stA)) = 17 /\
+  h_next acache ex_stA = 1%N /\
+  wf_b (h_s acache ex_stA) = true.
+Proof. exact ex_stA_shape. Qed.
+Print Assumptions C08_hist_example_state.
